@@ -9,7 +9,8 @@ PROP = "C04"
 DIR = None
 A0, A1 = b"original content of a", b"ALTERED content of a!"
 MODES = ("folder", "sf", "nested")
-TWINS = {"c": DIR, "c/z.txt": b"zc", "d": DIR, "d/a.txt": None, "e": DIR, "e/z.txt": b"ze", "b.txt": b"bystander"}
+TWINS = {"c": DIR, "c/z.txt": b"zc", "d": DIR, "d/a.txt": None, "e": DIR, "e/z.txt": b"ze", "b.txt": b"bystander",
+         "d.txt": b"its name starts with the name of the nested root d", "d2": DIR, "d2/a.txt": b"so does this folder's"}
 
 
 def subsets(fmts):
@@ -124,6 +125,10 @@ def judge(pre, post, mode, fmts, res, edits_state):
         for g in [g for g in ref.generations(post, hr) if g["path"] not in pre]:
             for rec in ref.read_manifest(g["bytes"])["records"]:
                 full = (hr + "/" + rec["path"]) if hr else rec["path"]
+                if rec["kind"] == "file" and (rec["path"].startswith("../") or "/../" in rec["path"] or rec["path"].startswith("/")):
+                    V("record-outside-its-history", f"{g['name']} of history '{hr or '.'}' records {rec['path']!r}: a file that lies outside "
+                      f"this history is judged against the wrong history's digests", other=True)
+                    continue
                 if rec["kind"] != "file" or full == tp or pre.get(full) is None:
                     continue
                 per2, first2 = ref.earliest(pg, rec["path"])
